@@ -31,4 +31,21 @@ theorem judge_accepts_model (bytes : List UInt8) (hp : (parse bytes).fail = none
 example : format (parseRunes (format Fmt.exTree)).tree = format Fmt.exTree := by
   rw [C07.print_parse _ Fmt.exTree_wf]; exact Spok.format_norm _
 
+/-! ## any number of formattings
+
+"Idempotent" for ONE re-formatting does not by itself say that a file formatted by every commit hook for a year stays what it
+was after the first.  With `C07.fmtB` (one `spok --fmt` on bytes) and `C07.fmtN n` (`n` of them): after the first formatting
+every further one parses and changes nothing — for every `n`. -/
+
+/-- **C11, any number of times**: for every input that parses and every `n`, the bytes after `1 + n` formattings are the
+    bytes after one, and they parse. -/
+theorem C11_iter (bytes : List UInt8) (hp : (parse bytes).fail = none) (n : Nat) :
+    (parse (C07.fmtN n (C07.fmtB bytes))).fail = none ∧ C07.fmtN n (C07.fmtB bytes) = C07.fmtB bytes :=
+  C07.fmtN_fmtB bytes hp n
+
+/-- non-vacuity: the theorem applies to the formatted bytes of the example tree, e.g. with `n = 5` -/
+example : (parse (flat (format Fmt.exTree))).fail = none →
+    C07.fmtN 5 (C07.fmtB (flat (format Fmt.exTree))) = C07.fmtB (flat (format Fmt.exTree)) :=
+  fun h => (C11_iter _ h 5).2
+
 end Spok.Props.C11
